@@ -46,5 +46,12 @@ func HostileSpecs() map[string]J {
 	add("responses-variety", `{"swagger":"2.0","info":{"title":"t","version":"1"},"paths":{"/r":{"get":{"operationId":"getR","produces":["application/json","text/plain"],"responses":{"200":{"description":"file","schema":{"type":"file"}},
 	 "201":{"description":"string","schema":{"type":"string","format":"date-time"}},"202":{"description":"arr","schema":{"type":"array","items":{"type":"string"}}},"204":{"description":"none"},"default":{"description":"d","schema":{"type":"object"}}}},
 	 "head":{"operationId":"headR","deprecated":true,"responses":{"200":{"description":"ok"}}}}},"definitions":{}}`)
+	add("same-name-params", `{"swagger":"2.0","info":{"title":"t","version":"1"},"paths":{"/v/{version}":{"parameters":[{"name":"version","in":"path","required":true,"type":"string"},{"name":"trace","in":"header","type":"string"}],
+	 "get":{"operationId":"getV","parameters":[{"name":"version","in":"query","type":"integer"},{"name":"version","in":"header","type":"string","enum":["a","b","c"]},{"name":"trace","in":"query","type":"boolean"},{"name":"limit","in":"query","type":"integer"}],"responses":{"200":{"description":"ok"}}},
+	 "post":{"operationId":"postV","consumes":["application/x-www-form-urlencoded"],"parameters":[{"name":"version","in":"formData","type":"string"},{"name":"version","in":"query","type":"string"},{"name":"trace","in":"header","type":"integer"}],"responses":{"200":{"description":"ok"}}}}}}`)
+	add("array-only-recursion", `{"swagger":"2.0","info":{"title":"t","version":"1"},"paths":{"/c":{"get":{"operationId":"getC","responses":{"200":{"description":"ok","schema":{"$ref":"#/definitions/Category"}}}},
+	 "post":{"operationId":"postC","parameters":[{"name":"b","in":"body","schema":{"type":"array","items":{"$ref":"#/definitions/Category"}}}],"responses":{"200":{"description":"ok","schema":{"type":"array","items":{"$ref":"#/definitions/Ring1"}}}}}}},
+	 "definitions":{"Category":{"type":"object","properties":{"name":{"type":"string"},"children":{"type":"array","items":{"$ref":"#/definitions/Category"}}}},
+	 "Ring1":{"type":"object","properties":{"next":{"type":"array","items":{"$ref":"#/definitions/Ring2"}}}},"Ring2":{"type":"object","properties":{"back":{"type":"array","items":{"$ref":"#/definitions/Ring1"}}}}}}`)
 	return out
 }
